@@ -30,6 +30,11 @@ revert_e063a90.diff C15
 revert_6e180d2.diff C15
 c11_add_inventory_swaps_units.diff C11
 c02_capacity_reserved_after_ratio.diff C02
+c02_request_drops_unit_amounts.diff C02
+c02_request_maps_root.diff C02
+c02_single_copy_drops_request.diff C02
+c02_single_wrong_summary.diff C02
+c02_copy_loses_mappings.diff C02
 c13_skip_forbidden_when_member_of.diff C13
 EOM
 run_one() {
